@@ -100,9 +100,23 @@ class Model(object):
                     if m:
                         tmps[m.group(1)] = [int(x, 16) for x in m.group(2).split(',')]
                         continue
+                    # a sized scratch array (C zero-fills what the initialiser list leaves out) and stores into its elements:
+                    # the function is straight-line code, so the arrays are interpreted statement by statement
+                    m = re.match(r'val_t (\w+)\[(\d+)\] = \{(.*)\};', s)
+                    if m:
+                        given = [int(x, 0) for x in m.group(3).split(',') if x.strip()]
+                        tmps[m.group(1)] = (given + [0] * int(m.group(2)))[:int(m.group(2))]
+                        continue
+                    m = re.match(r'(\w+)\[(\d+)\] = (0x[0-9a-fA-F]+|\d+)(?:ULL|UL|U)?;', s)
+                    if m and m.group(1) in tmps:
+                        if int(m.group(2)) >= len(tmps[m.group(1)]):
+                            raise CTransError('store outside the array in initialize_mems: %r' % s)
+                        tmps[m.group(1)][int(m.group(2))] = int(m.group(3), 0)
+                        continue
                     m = re.match(r'insert\((\w+), (-?\d+), (\w+)\);', s)
                     if m:
-                        self.mem_init[m.group(1)][int(m.group(2))] = tmps[m.group(3)]
+                        # insert() copies val_limbs limbs of the buffer it is given
+                        self.mem_init[m.group(1)][int(m.group(2))] = list(tmps[m.group(3)])
                         continue
                     if s:
                         raise CTransError('unknown statement in initialize_mems: %r' % s)
